@@ -203,6 +203,17 @@ impl CommandParser {
                     return true;
                 }
 
+                // An imported tauri::ipc::Request is written with its lifetime (Request<'_>); a user
+                // type of that name has none, or type arguments
+                if type_ident == "Request" {
+                    if let syn::PathArguments::AngleBracketed(arguments) = &last_segment.arguments {
+                        return arguments
+                            .args
+                            .iter()
+                            .all(|argument| matches!(argument, syn::GenericArgument::Lifetime(_)));
+                    }
+                }
+
                 // State and Window are common names, only match if they have generic params
                 // (Tauri's State and Window types always have generics like State<T>, Window<R>)
                 if (type_ident == "State" || type_ident == "Window")
